@@ -283,6 +283,11 @@ def lp_section(draw, max_targets=12):
 def ud_section(draw, max_len=64, big=False):
     s = sec_common(draw)
     s.update({'k': 'UD', 'data': draw(payload(max_len, big))})
+    if draw(st.integers(0, 5)) == 0:
+        # the BMC built-in formats (component 0x2000, subtype 1 JSON / 2 CBOR / 3 text / 4 custom)
+        # with an arbitrary payload: still a structurally well-formed section
+        s['comp'] = 0x2000
+        s['sub'] = draw(st.sampled_from([1, 2, 3, 4]))
     return s
 
 
